@@ -8,6 +8,7 @@ import InfluxQL.Lemmas.SelectPieces
 import InfluxQL.Lemmas.SelectClauses
 import InfluxQL.Lemmas.IntLit
 import InfluxQL.Lemmas.RegexRoundTrip
+import InfluxQL.Lemmas.ShowPieces
 import InfluxQL.Lemmas.AdminPieces
 import InfluxQL.Lemmas.NumberRoundTrip
 import InfluxQL.Props.C01
@@ -2971,5 +2972,115 @@ example : ∃ s', (runHandler 10 .parseCreateSubscriptionStatement).run
 
 example : createSubscriptionText "sub 0".toList "mydb".toList "rp.1".toList .ANY "udp://h1:9090".toList ["it's".toList, []] =
     " \"sub 0\" ON mydb.\"rp.1\" DESTINATIONS ANY 'udp://h1:9090', 'it\\'s', ''".toList := by decide +kernel
+
+/-! ### SHOW TAG VALUES -/
+
+/-- `[ON db] [FROM names] WITH KEY <op> <key> [WHERE cond] [LIMIT l] [OFFSET o]`. -/
+def showTagValuesText (db : Str) (names : List Str) (op : Token) (key : Expr) (c : Option Expr) (l o : Int) : Str :=
+  onDbText db ++ (fromText names ++ (withKeyText op key ++ (whereText c ++ (posText .LIMIT l ++ posText .OFFSET o))))
+
+theorem showTagValues_print_partial (db : Str) (names : List Str) (op : Token) (key : Expr) (c : Option Expr) (l o : Int)
+    (h : ∀ m ∈ names, m ≠ []) :
+    (Statement.showTagValues db (names.map nameSrc) op (some key) c [] l o).print =
+      tx "SHOW TAG VALUES" ++ showTagValuesText db names op key c l o := by
+  have p1 : (Statement.showTagValues db (names.map nameSrc) op (some key) c [] l o).print =
+      tx "SHOW TAG VALUES" ++ clauseOn db ++ clauseFrom (names.map nameSrc) ++ printTagKey op key ++ clauseWhere c ++
+        clauseOrderBy [] ++ clausePos "LIMIT" l ++ clausePos "OFFSET" o := rfl
+  have e0 : clauseOrderBy [] = [] := rfl
+  rw [p1, clauseFrom_names names h, clauseWhere_eq, clauseOn_onDbText, (clausePos_eq l).1, (clausePos_eq o).2.1, e0,
+    printTagKey_eq]
+  simp only [showTagValuesText, List.append_assoc, List.append_nil]
+
+/-- **Print → parse, SHOW TAG VALUES** `[ON db] [FROM m1, …] WITH KEY = k | != k | =~ /re/ | !~ /re/ | IN (k1, k2, …)
+[WHERE cond] [LIMIT l] [OFFSET o]`, the key clause as `printTagKey` writes it (a string-literal key is printed
+as identifier and read back by `ParseIdent` into a string literal). The key clause is complete: `tagKeyOKB`
+holds of every operator / key pair `parseTagKeyExpr` returns for a regex written as text (key names and the
+list of `IN` of any length).
+Partial (as `showSeries_print_parse_partial`): sources are plain measurement names (not empty in the text
+equation: finding `empty-identifier-not-printed`), the condition is `Printable`, no `ORDER BY`. -/
+theorem showTagValues_print_parse_partial (fuel : Nat) (s : PState) (db : Str) (names : List Str) (op : Token)
+    (key : Expr) (c : Option Expr) (l o : Int) (k : Str)
+    (hexdb : Expressible db) (hex : ∀ m ∈ names, Expressible m) (hkey : tagKeyOKB op key = true) (hc : CondOK c)
+    (hl : 0 ≤ l ∧ l ≤ maxInt64) (ho : 0 ≤ o ∧ o ≤ maxInt64) (hk : Follow k showStop)
+    (hs : s.Before (showTagValuesText db names op key c l o ++ k)) :
+    wp (runHandler fuel .parseShowTagValuesStatement) s
+      (fun st s' => st = .showTagValues db (names.map nameSrc) op (some key) c [] l o ∧ RT.Stand s' k) (· = .fuel) := by
+  obtain ⟨g4, g3, g2, _⟩ := show_follow names c l o k hk
+  have gW : Follow (withKeyText op key ++ (whereText c ++ (posText .LIMIT l ++ (posText .OFFSET o ++ k))))
+      [.EXACT, .CARDINALITY, .ON, .FROM, .COMMA] :=
+    Follow.opt (kwText_withKey op key) (by decide +kernel) rfl (by decide) (g2.mono (by decide))
+  have gF : Follow (fromText names ++ (withKeyText op key ++ (whereText c ++ (posText .LIMIT l ++ (posText .OFFSET o ++ k)))))
+      [.EXACT, .CARDINALITY, .ON] :=
+    Follow.opt (kwText_from _) (by decide +kernel) rfl (by decide) (gW.mono (by decide))
+  have g0 : Follow (onDbText db ++ (fromText names ++ (withKeyText op key ++ (whereText c ++ (posText .LIMIT l ++
+      (posText .OFFSET o ++ k)))))) [.EXACT, .CARDINALITY] :=
+    Follow.opt (kwText_onDb _) (by decide +kernel) rfl (by decide) (gF.mono (by decide))
+  have hs0 : RT.Stand s (onDbText db ++ (fromText names ++ (withKeyText op key ++ (whereText c ++ (posText .LIMIT l ++
+      (posText .OFFSET o ++ k)))))) := by
+    have := hs.stand
+    simpa only [showTagValuesText, List.append_assoc] using this
+  obtain ⟨_, T, hT, _, hnot⟩ := g0
+  obtain ⟨lx, s1, h1, t1, st1, _⟩ := RT.scanIW_starts s _ T hs0 hT
+  have hne1 : ¬ lx.tok = .EXACT := by rw [t1]; intro e; exact hnot (by rw [e]; simp)
+  have hne2 : ¬ lx.tok = .CARDINALITY := by rw [t1]; intro e; exact hnot (by rw [e]; simp)
+  obtain ⟨s3, h3, st3⟩ := parseOnDb_stand (unsc s1) db _ hexdb (gF.mono (by decide)) st1
+  obtain ⟨s4, h4, st4⟩ := parseOptFrom_names s3 names _ hex (gW.mono (by decide)) st3
+  obtain ⟨s5, h5, b5⟩ := parseTagKeyExpr_print s4 op key _ hkey g2.tokEnd.1 st4
+  simp only [runHandler, parseShowTagValues]
+  rw [wp_bind, wp_of_run_ok h1]
+  simp only [hne1, hne2, if_false]
+  rw [wp_bind, unscan_wp, wp_bind, wp_of_run_ok h3, wp_bind, wp_of_run_ok h4, wp_bind, wp_of_run_ok h5]
+  dsimp only
+  rw [wp_bind]
+  refine wp_mono (parseCondition_print fuel s5 c _ hc (g3.mono (by decide)) b5.stand) ?_ (fun _ h => h)
+  intro c' s6 ⟨hc', st6⟩
+  subst hc'
+  obtain ⟨s7, h7, st7⟩ := parseOrderBy_absent s6 _ (g3.mono (by decide)) st6
+  obtain ⟨s8, h8, st8⟩ := parseOptTokInt_print .LIMIT (by decide +kernel) s7 l _ hl.1 hl.2 (g4.mono (by decide)) st7
+  obtain ⟨s9, h9, st9⟩ := parseOptTokInt_print .OFFSET (by decide +kernel) s8 o k ho.1 ho.2 (hk.mono (by decide)) st8
+  rw [wp_bind, wp_of_run_ok h7, wp_bind, wp_of_run_ok h8, wp_bind, wp_of_run_ok h9, wp_pure]
+  exact ⟨rfl, st9⟩
+
+/-- Non-vacuity: the five forms of the key clause. -/
+def exKeyIn : Expr := .list ["host".toList, "my tag".toList, "select".toList]
+def exTagValuesText1 : Str := showTagValuesText "my db".toList exNames .IN exKeyIn exCond 10 3
+def exTagValuesText2 : Str := showTagValuesText [] [] .NEQREGEX (.regex "^a/b".toList) none 0 0
+def exTagValuesText3 : Str := showTagValuesText [] ["cpu".toList] .EQ (.string "my tag".toList) none 5 0
+
+example : exTagValuesText1 = (" ON \"my db\" FROM cpu, \"my m\" WITH KEY IN (host, \"my tag\", \"select\") " ++
+      "WHERE host = 'a' AND (x > -1 OR y =~ /^b/) LIMIT 10 OFFSET 3").toList ∧
+    exTagValuesText2 = " WITH KEY !~ /^a\\/b/".toList ∧
+    exTagValuesText3 = " FROM cpu WITH KEY = \"my tag\" LIMIT 5".toList := by decide +kernel
+
+example : tagKeyOKB .IN exKeyIn = true ∧ tagKeyOKB .NEQREGEX (.regex "^a/b".toList) = true ∧
+    tagKeyOKB .EQ (.string "my tag".toList) = true ∧ tagKeyOKB .NEQ (.string []) = true ∧
+    tagKeyOKB .EQREGEX (.regex "a\\".toList) = false ∧ tagKeyOKB .IN (.list []) = false ∧
+    tagKeyOKB .EQ (.regex ['a']) = false := by decide +kernel
+
+section
+attribute [local irreducible] wp
+example : wp (runHandler 200 .parseShowTagValuesStatement) (PState.init exTagValuesText1 [] [])
+    (fun st s' => st = .showTagValues "my db".toList (exNames.map nameSrc) .IN (some exKeyIn) exCond [] 10 3 ∧
+      RT.Stand s' [eofRune]) (· = .fuel) :=
+  showTagValues_print_parse_partial 200 (PState.init exTagValuesText1 [] []) "my db".toList exNames .IN exKeyIn exCond 10 3
+    [eofRune] (by decide +kernel) (by decide +kernel) (by decide +kernel) (by decide +kernel) (by decide) (by decide)
+    (Follow.eof _ (by decide)) (init_before exTagValuesText1 (by decide +kernel))
+
+example : wp (runHandler 200 .parseShowTagValuesStatement) (PState.init exTagValuesText2 [] [])
+    (fun st s' => st = .showTagValues [] [] .NEQREGEX (some (.regex "^a/b".toList)) none [] 0 0 ∧
+      RT.Stand s' [eofRune]) (· = .fuel) :=
+  showTagValues_print_parse_partial 200 (PState.init exTagValuesText2 [] []) [] [] .NEQREGEX (.regex "^a/b".toList) none 0 0
+    [eofRune] (by decide +kernel) (by decide +kernel) (by decide +kernel) (by decide +kernel) (by decide) (by decide)
+    (Follow.eof _ (by decide)) (init_before exTagValuesText2 (by decide +kernel))
+end
+
+/-- … and the fuel suffices on these inputs. -/
+example : (match (runHandler 200 .parseShowTagValuesStatement).run (PState.init exTagValuesText1 [] []) with
+    | .ok _ => true
+    | .error _ => false) = true ∧
+    (match (runHandler 200 .parseShowTagValuesStatement).run (PState.init exTagValuesText3 [] []) with
+    | .ok (.showTagValues [] [.measurement m] .EQ (some (.string v)) none [] 5 0, _) =>
+      m.name == "cpu".toList && v == "my tag".toList
+    | _ => false) = true := by decide +kernel
 
 end InfluxQL.C02
